@@ -140,7 +140,12 @@ func init() {
 		Run:    func(plan any, tape *Tape, ss uint64) *RunResult { return RunC16(plan.(*C16Plan)) },
 		Decode: func(b json.RawMessage) (any, error) { p := &C16Plan{}; return p, json.Unmarshal(b, p) },
 	})
-	register(&Family{Prop: "C11", Name: "c11", Weight: 1,
+	register(&Family{Prop: "C11", Name: "c11-stalled", Weight: 1,
+		Gen:    func(r *RNG) any { return GenC11Stalled(r) },
+		Run:    func(plan any, tape *Tape, ss uint64) *RunResult { return RunC11(plan.(*C11Plan), tape, ss) },
+		Decode: func(b json.RawMessage) (any, error) { p := &C11Plan{}; return p, json.Unmarshal(b, p) },
+	})
+	register(&Family{Prop: "C11", Name: "c11", Weight: 5,
 		Gen:    func(r *RNG) any { return GenC11(r) },
 		Run:    func(plan any, tape *Tape, ss uint64) *RunResult { return RunC11(plan.(*C11Plan), tape, ss) },
 		Decode: func(b json.RawMessage) (any, error) { p := &C11Plan{}; return p, json.Unmarshal(b, p) },
@@ -168,7 +173,9 @@ func init() {
 		func(w *SrvWorld, r *RunResult) { r.Nontrivial = c10Nontrivial(w) }))
 	register(lifeFamily("C10", "c10-idle", 1, GenC10Idle, nil, c10Final,
 		func(w *SrvWorld, r *RunResult) { r.Nontrivial = c10Nontrivial(w) }))
-	register(lifeFamily("C17", "c17", 1, GenC17, nil, c17Final,
+	register(lifeFamily("C17", "c17-idle-burst", 1, GenC17IdleBurst, nil, c17Final,
+		func(w *SrvWorld, r *RunResult) { r.Nontrivial = c17Nontrivial(w) }))
+	register(lifeFamily("C17", "c17", 4, GenC17, nil, c17Final,
 		func(w *SrvWorld, r *RunResult) { r.Nontrivial = c17Nontrivial(w) }))
 	register(srvFamily("C01", "c01", 1, GenC01, c01Online,
 		func(w *SrvWorld) *Violation { return c01Final(w, "C01") },
@@ -176,6 +183,8 @@ func init() {
 	register(srvFamily("C09", "c09", 5, GenC09, c09Online, c09Final,
 		func(w *SrvWorld, r *RunResult) { r.Nontrivial = c09Nontrivial(w) }))
 	register(srvFamily("C09", "c09-all", 5, GenC09All, c09Online, c09Final,
+		func(w *SrvWorld, r *RunResult) { r.Nontrivial = c09Nontrivial(w) }))
+	register(lifeFamily("C09", "c09-timeout", 2, GenC09Timeout, c01Online, c09TimeoutFinal,
 		func(w *SrvWorld, r *RunResult) { r.Nontrivial = c09Nontrivial(w) }))
 	register(srvFamily("C06", "c06", 1, GenC06, c06Online, c06Final,
 		func(w *SrvWorld, r *RunResult) { r.Nontrivial = c06Nontrivial(w) }))
@@ -316,7 +325,7 @@ func TestWorker(t *testing.T) {
 	}
 	var what atomic.Value
 	what.Store("startup")
-	go watchdog(20*time.Second, &what)
+	go watchdog(60*time.Second, &what) // generous: on a machine loaded several times over, a worker can go without CPU for a long time
 	seed := uint64(envInt("VERIF_SEED", 1))
 	from, to := envInt("VERIF_FROM", 0), envInt("VERIF_TO", 100)
 	budget := time.Duration(envInt("VERIF_BUDGET_S", 3600)) * time.Second
